@@ -4,6 +4,7 @@ import re
 from astlib import calls, find_fn, fns_in_file, last, method_calls, render, site, strip, walk
 from pathcond import conditions_to, enumerate_paths, fact_str, facts_str, find_path, let_env
 import reportflow
+import sgrep
 
 TITLE = "Includes"
 LEVEL_TEXT = (
@@ -40,7 +41,7 @@ def canonical_provenance(fn, push):
             scr = render(c[2]).replace(" ", "")
             if pat == "Ok(%s)" % name and scr.startswith("fs::canonicalize("):
                 return True, "Ok payload of %s" % scr
-    if name == "lib.path":
+    if arg["k"] == "Field" and arg["member"] == "path" and any(c[0] == "loop" and "libraries" in render(c[3]) and render(c[2]).lstrip("&") == render(arg["base"]) for c in conds):
         return "lib", "stored library path"
     return False, "pushed value `%s` is not the result of fs::canonicalize on this path (conditions: %s)" % (name, facts_str(conds))
 
@@ -58,7 +59,7 @@ def rule_canonical(ctx):
             if ok == "lib":
                 # library file: constructed from a canonical path, and only used when !lib.dir
                 cs = facts_str(conditions_to(fn["body"], p) or [])
-                nodir = any(c.replace(" ", "") == "!lib.dir" for c in cs)
+                nodir = any(re.fullmatch(r"!\w+\.dir", c.replace(" ", "")) for c in cs)
                 ctx.check(R, "%s/push(lib.path)/library-file-only" % fn["name"], nodir, "conditions: %s" % cs, site(INC, p))
                 continue
             ctx.check(R, "%s/push(%s)" % (fn["name"], render(strip(p["args"][0]))), bool(ok), how, site(INC, p))
@@ -121,7 +122,11 @@ def rule_visited(ctx):
         ctx.check(R, "take_next/value-comes-from-the-stack", popped, "conditions %s" % cs, site(INC, o))
     # current location is the directory of the file handed out
     t = render(fn["body"]).replace(" ", "")
-    ctx.check(R, "take_next/current-location-is-the-file's-directory", "letmutlocation=file_path.clone();location.pop();self.current_location=Some(location);" in t, "", site(INC, fn))
+    okl = False
+    for n, b in sgrep.find(fn["body"], "self.current_location = Some(__loc)"):
+        loc = b["__loc"]
+        okl = okl or (sgrep.has(fn["body"], "let mut __l = __fp.clone()", None, {"__l": loc}) and sgrep.has(fn["body"], "__l.pop()", None, {"__l": loc}))
+    ctx.check(R, "take_next/current-location-is-the-file's-directory", okl, "the current location must be the popped path with its last component removed", site(INC, fn))
     # add_include skips visited
     ai = find_fn(INC, "add_include")
     if ai is not None:
@@ -203,11 +208,23 @@ def rule_resolution(ctx):
     pf = find_fn(LIB, "parse_file")
     if pf is not None:
         t = render(pf["body"]).replace(" ", "")
-        ctx.check(R, "parse_file/every-include-resolved-and-errors-reported", "forincludein&program.includes{ifletErr(report)=file_stack.add_include(include){reports.push(*report);}}" in t, "", site(LIB, pf))
+        oki = False
+        for n, b in sgrep.find(pf["body"], "for __inc in __p.includes { __body }") + sgrep.find(pf["body"], "for __inc in __p.includes.iter() { __body }"):
+            adds = [a for a in method_calls(n, "add_include") if render(strip(a["args"][0])) == b["__inc"]]
+            if len(adds) == 1 and not [c for c in (conditions_to(n["body"], adds[0]) or []) if c[0] not in ("loop",)]:
+                # the Err result is pushed to the reports
+                oki = sgrep.has(n, "if let Err(__r) = __fs.add_include(__i) { __rs.push(*__r); }") or sgrep.has(n, "match __fs.add_include(__i) { Err(__r) => __rs.push(*__r), __o => __x }") or any("push" in render(x) for x in walk(n) if x["k"] == "MethodCall" and x["method"] == "push")
+        ctx.check(R, "parse_file/every-include-resolved-and-errors-reported", oki, "every include of the parsed file goes through add_include and an Err is pushed to the reports", site(LIB, pf))
     pl = find_fn(PL, "parse_file")
     if pl is not None:
         t = render(pl["body"]).replace(" ", "")
-        ctx.check(R, "parser_logic::parse_file/include-meta-gets-file-id", "forincludein&mutast.includes{include.meta.set_file_id(file_id);}" in t, "", site(PL, pl))
+        pvp = sgrep.params(pl)
+        okm, how = sgrep.each_calls(pl["body"], "__a.includes", "set_file_id") if False else (False, "")
+        okm = False
+        for n, b in sgrep.find(pl["body"], "for __inc in __a.includes { __body }") + sgrep.find(pl["body"], "for __inc in __a.includes.iter_mut() { __body }"):
+            okm = okm or sgrep.has(n, "__i.meta.set_file_id(__f)", None, {"__i": b["__inc"], "__f": pvp[1] if len(pvp) > 1 else "file_id"})
+        okm = okm or sgrep.has(pl["body"], "__a.includes.iter_mut().for_each(|__i| __i.meta.set_file_id(__f))")
+        ctx.check(R, "parser_logic::parse_file/include-meta-gets-file-id", okm, "every include's meta gets the file id before it can be resolved", site(PL, pl))
 
 
 def rule_user_inputs(ctx):
@@ -223,23 +240,34 @@ def rule_user_inputs(ctx):
     iu = find_fn(INC, "is_user_input", "FileStack")
     if iu is not None:
         tt = render(iu["body"]).replace(" ", "")
-        ctx.check(R, "FileStack::is_user_input", tt == "{self.user_inputs.contains(path)}", tt, site(INC, iu))
+        pvi = sgrep.params(iu)
+        ctx.check(R, "FileStack::is_user_input", bool(pvi) and sgrep.has(iu["body"], "self.user_inputs.contains(__p)", sgrep.lets(iu["body"]), {"__p": pvi[0]}), tt, site(INC, iu))
     pf = find_fn(LIB, "parse_file")
     if pf is not None:
         t = render(pf["body"]).replace(" ", "")
-        ctx.check(R, "parse_file/classified-by-the-path-taken-from-the-stack", "letis_user_input=file_stack.is_user_input(file_path);letfile_id=file_library.add_file(path_str,file_content.clone(),is_user_input);" in t, "", site(LIB, pf))
+        pvf = sgrep.params(pf)
+        envf = sgrep.lets(pf["body"])
+        okc = len(pvf) >= 3 and sgrep.has(pf["body"], "__fl.add_file(__name, __content, __fs.is_user_input(__fp))", envf, {"__fp": pvf[0], "__fs": pvf[1], "__fl": pvf[2]})
+        ctx.check(R, "parse_file/classified-by-the-path-taken-from-the-stack", okc, "add_file(.., .., file_stack.is_user_input(<the path taken from the stack>))", site(LIB, pf))
     af = find_fn(FD, "add_file", "FileLibrary")
     if af is not None:
         t = render(af["body"]).replace(" ", "")
-        ctx.check(R, "FileLibrary::add_file/records-flag", "ifis_user_input{self.user_inputs.insert(file_id);}" in t, t[:160], site(FD, af))
+        pva = sgrep.params(af)
+        ins = [i for i in method_calls(af["body"], "insert") if "user_inputs" in render(i["recv"])]
+        okr = False
+        if len(ins) == 1 and len(pva) == 3:
+            cs = [fact_str(c).replace(" ", "") for c in (conditions_to(af["body"], ins[0]) or [])]
+            okr = cs == [pva[2]]
+        ctx.check(R, "FileLibrary::add_file/records-flag", okr, t[:160], site(FD, af))
     fi = find_fn(FD, "is_user_input", "FileLibrary")
     if fi is not None:
         t = render(fi["body"]).replace(" ", "")
-        ctx.check(R, "FileLibrary::is_user_input", t == "{self.user_inputs.contains(&file_id)}", t, site(FD, fi))
+        pvi2 = sgrep.params(fi)
+        ctx.check(R, "FileLibrary::is_user_input", bool(pvi2) and sgrep.has(fi["body"], "self.user_inputs.contains(__p)", sgrep.lets(fi["body"]), {"__p": pvi2[0]}), t, site(FD, fi))
     pfs = find_fn(LIB, "parse_files")
     if pfs is not None:
         t = render(pfs["body"]).replace(" ", "")
-        ctx.check(R, "parse_files/drains-the-stack", "whileletSome(file_path)=FileStack::take_next(&mutfile_stack)" in t, "", site(LIB, pfs))
+        ctx.check(R, "parse_files/drains-the-stack", sgrep.has(pfs["body"], "while let Some(__p) = FileStack::take_next(__fs) { __body }") or sgrep.has(pfs["body"], "while let Some(__p) = __fs.take_next() { __body }"), "", site(LIB, pfs))
         # errors do not stop the loop
         wl = [w for w in walk(pfs["body"]) if w["k"] == "While"]
         brk = [b for b in walk(wl[0]["body"]) if b["k"] in ("Break", "Return")] if wl else ["?"]
@@ -249,14 +277,26 @@ def rule_user_inputs(ctx):
 def rule_only_named(ctx):
     R = "C19.5"
     ctx.rule(R, "only definitions of named files are analysed, the per-file filter is installed, and a report without a primary label passes it only if it is an error")
-    mainfn = find_fn(MAIN, "main")
+    import c03
+    mainfn = c03.canon_main(ctx, R)
     if mainfn is None:
-        return ctx.missing(R, "cli::main")
+        return
     for m in ("analyze_functions", "analyze_templates"):
         c = list(method_calls(mainfn["body"], m))
         ctx.check(R, "main/%s/user-input-only" % m, len(c) == 1 and render(strip(c[0]["args"][1])) == "true", render(c[0])[:80] if c else "missing", site(MAIN, mainfn))
     t = render(mainfn["body"]).replace(" ", "")
-    ctx.check(R, "main/file-filter-installed", t.count("filter_by_file(report,&user_inputs)") >= 2 and "letuser_inputs=runner.file_library().user_inputs().clone();" in t, "", site(MAIN, mainfn))
+    envm = {}
+    nfil = 0
+    for c in calls(mainfn["body"], "filter_by_file"):
+        a1 = strip(c["args"][1]) if len(c["args"]) > 1 else None
+        src = None
+        if a1 is not None and a1["k"] == "Path":
+            for l in walk(mainfn["body"]):
+                if l["k"] == "Local" and l["pat"]["k"] == "PIdent" and l["pat"]["name"] == a1["path"] and l["init"] is not None:
+                    src = render(strip(l["init"])).replace(" ", "")
+        if src == "runner.file_library().user_inputs()":
+            nfil += 1
+    ctx.check(R, "main/file-filter-installed", nfil >= 2, "filter_by_file(report, <copy of runner.file_library().user_inputs()>) installed %d time(s)" % nfil, site(MAIN, mainfn))
     tol, desc = reportflow.filter_tolerance()
     # a finding (non-error) without a guaranteed primary label must not pass the file filter, otherwise it is
     # displayed for only-included files as well
@@ -273,7 +313,9 @@ def rule_only_named(ctx):
             ctx.missing(R, "AnalysisRunner::%s_names" % kind)
             continue
         tt = render(f["body"]).replace(" ", "")
-        ctx.check(R, "AnalysisRunner::%s_names/user-input-filter" % kind, "if(!user_input_only||self.file_library.is_user_input(ast.get_file_id())){Some(name)}else{None}" in tt, tt[:200], site(RUN, f))
+        pvn = sgrep.params(f)
+        okn = bool(pvn) and (sgrep.has(f["body"], "if !__u || self.file_library.is_user_input(__a.get_file_id()) { Some(__n) } else { None }", None, {"__u": pvn[0]}) or sgrep.has(f["body"], "if __u && !self.file_library.is_user_input(__a.get_file_id()) { None } else { Some(__n) }", None, {"__u": pvn[0]}) or sgrep.has(f["body"], "__it.filter(|(__n, __a)| !__u || self.file_library.is_user_input(__a.get_file_id()))", None, {"__u": pvn[0]}) or sgrep.has(f["body"], "__it.filter(|(_, __a)| !__u || self.file_library.is_user_input(__a.get_file_id()))", None, {"__u": pvn[0]}))
+        ctx.check(R, "AnalysisRunner::%s_names/user-input-filter" % kind, okn, tt[:200], site(RUN, f))
 
 
 def run(ctx):
